@@ -348,6 +348,8 @@ def check(v, tier):
     guard(len({g for g, _ in groups}) == len(groups), 'duplicate group keys')
     flat = [t for _, ts in groups for t in ts]
     res = xp.expand_all(binary, flat)
+    from .. import realmacro
+    realmacro.conformance(v, binary, flat, res)
     k = 0
     nontriv = 0
     for gk, texts in groups:
